@@ -29,7 +29,8 @@ const modPath = "git.sr.ht/~adrian-blx/psa-dhcp/"
 var targets = map[string][]string{
 	"lib/layer":           {"setV4Checksum", "ipv4csum", "udp4csum", "pseudohdrcsum", "UDP.Assemble", "DecodeUDP", "IPv4.Assemble", "DecodeIPv4", "ARP.Assemble", "DecodeARP"},
 	"lib/server/ipdb/uip": {"Uip.ToV4", "Uip.Valid"},
-	"lib/server/ipdb":     {"fromTo", "IPDB.toUip", "IPDB.InManagedRange"},
+	"lib/server/ipdb": {"fromTo", "IPDB.toUip", "IPDB.InManagedRange", "IPDB.SetDynamicRange", "IPDB.DisableDynamic",
+		"IPDB.LookupClientByDuid", "IPDB.AddPermanentClient", "IPDB.UpdateClient", "IPDB.FindIP"},
 	"lib/server/replies":  {"assembleUdp", "dstFromFlag", "AssembleOffer", "AssembleACK", "AssembleNACK"},
 	"lib/server":          {"duidFromHwAddr", "server.getDuid", "server.handleMsg", "server.handleDiscover", "server.handleRequest", "server.sendNACK", "server.sendMsg"},
 	"lib/client/verify":   {"verifyCommon", "verifyGenAck", "VerifyOffer", "VerifySelectingAck", "VerifyRenewingAck", "VerifyRebindingAck"},
